@@ -224,3 +224,31 @@ func filesOf(ts []target) map[string]string {
 	}
 	return out
 }
+
+// profileStage: a profile that cannot be written (-cpuprofile / -memprofile below a directory that does not exist) is
+// an error of the run's last steps: non-zero status, a message naming the path, no crash — and the diagnostics,
+// which were complete before, are still printed.
+func profileStage(meta *common.Meta, base, bin string) int {
+	runs := 0
+	for _, exe := range []string{"go-critic", "gocritic"} {
+		for _, flag := range []string{"-cpuprofile", "-memprofile"} {
+			path := filepath.Join(base, "no-such-dir-verif", "p.prof")
+			args := []string{"check", "-enable=captLocal", "-exitCode=7", flag + "=" + path, "./p1"}
+			out, code, err := common.Run(120*time.Second, base, common.GoEnv(), filepath.Join(bin, exe), args...)
+			runs++
+			switch {
+			case err != nil:
+				meta.Fail("C19/cli/hang:unwritable-profile", err.Error(), args)
+			case panicRE.MatchString(out):
+				meta.Fail("C19/cli/panic:unwritable-profile", fmt.Sprintf("%s %v panics: %s", exe, args, firstLines(out, 6)), args)
+			case code == 0:
+				meta.Fail("C19/cli/invalid-config-exit-0:unwritable-profile", fmt.Sprintf("%s %v exits 0 although the profile cannot be written: %s", exe, args, firstLines(out, 3)), args)
+			case !strings.Contains(out, "no-such-dir-verif"):
+				meta.Fail("C19/cli/message-does-not-name-problem:unwritable-profile", fmt.Sprintf("%s %v: %s", exe, args, firstLines(out, 3)), args)
+			case !diagLineRE.MatchString(out):
+				meta.Fail("C19/cli/diagnostics-lost:unwritable-profile", fmt.Sprintf("%s %v: the captLocal diagnostic of ./p1 is not printed: %s", exe, args, firstLines(out, 3)), args)
+			}
+		}
+	}
+	return runs
+}
